@@ -1,0 +1,86 @@
+//go:build verif
+
+package ir
+
+// Contracts for the verification machinery in /verif (see /verif/DESIGN.md).
+// This file contains only comments; it is compiled to nothing.
+
+//@ prop C14
+
+// ---- the dominator tree as an abstract forest (trusted description) ----
+// nch(v), ch(v, k): number of children and k-th child of v; sub(v, w): w lies in the subtree
+// rooted at v; cidx(v, w): index of the child of v whose subtree contains w (for w != v in the
+// subtree); sz(v): number of nodes of the subtree; csum(v, k): nodes in the subtrees of the
+// first k children. Every finite forest admits such functions (paper step, see DESIGN.md).
+//@ ghost nch(v *BasicBlock) int
+//@ ghost ch(v *BasicBlock, k int) *BasicBlock
+//@ ghost sub(v *BasicBlock, w *BasicBlock) bool
+//@ ghost cidx(v *BasicBlock, w *BasicBlock) int
+//@ ghost sz(v *BasicBlock) int
+//@ ghost csum(v *BasicBlock, k int) int
+//@ group forest
+//@ axiom [refl]    forall v *BasicBlock :: {sub(v, v)} sub(v, v)
+//@ axiom [down]    forall v *BasicBlock, w *BasicBlock :: {sub(v, w)} sub(v, w) && v != w ==> 0 <= cidx(v, w) && cidx(v, w) < nch(v) && sub(ch(v, cidx(v, w)), w)
+//@ axiom [up]      forall v *BasicBlock, k int, w *BasicBlock :: {sub(ch(v, k), w)} 0 <= k && k < nch(v) && sub(ch(v, k), w) ==> sub(v, w) && cidx(v, w) == k && w != v
+//@ axiom [trans]   forall a *BasicBlock, b *BasicBlock, c *BasicBlock :: {sub(a, b), sub(b, c)} sub(a, b) && sub(b, c) ==> sub(a, c)
+//@ axiom [antisym] forall a *BasicBlock, b *BasicBlock :: {sub(a, b), sub(b, a)} sub(a, b) && sub(b, a) ==> a == b
+//@ axiom [size]    forall v *BasicBlock :: {sz(v)} sz(v) == 1 + csum(v, nch(v)) && nch(v) >= 0
+//@ axiom [csum0]   forall v *BasicBlock :: {csum(v, 0)} csum(v, 0) == 0
+//@ axiom [csumS]   forall v *BasicBlock, k int :: {csum(v, k + 1)} 0 <= k && k < nch(v) ==> csum(v, k + 1) == csum(v, k) + sz(ch(v, k)) && sz(ch(v, k)) >= 1 && csum(v, k) >= 0
+//@ axiom [nonnil]  forall v *BasicBlock, k int :: {ch(v, k)} 0 <= k && k < nch(v) && v != nil ==> ch(v, k) != nil
+//@ group
+
+// the heap stores this forest in the children lists
+//@ ghost treeInHeap(d array[Ref]domInfo) bool
+//@ func numberDomTree
+//@   uses     forest
+//@   requires v != nil
+//@   requires forall x *BasicBlock :: {x.dom} x != nil ==> len(x.dom.children) == nch(x) && (forall k int :: {x.dom.children[k]} 0 <= k && k < nch(x) ==> x.dom.children[k] == ch(x, k))
+//@   modifies BasicBlock.dom
+//@   ensures  [count]    result0 == pre + sz(v) && result1 == post + sz(v)
+//@   ensures  [own]      v.dom.pre == pre && v.dom.post == post + sz(v) - 1
+//@   ensures  [range]    forall w *BasicBlock :: {sub(v, w)} sub(v, w) ==> pre <= w.dom.pre && w.dom.pre < pre + sz(v) && post <= w.dom.post && w.dom.post < post + sz(v)
+//@   ensures  [frame]    forall w *BasicBlock :: {w.dom} !sub(v, w) ==> w.dom == old(w.dom)
+//@   ensures  [shape]    forall w *BasicBlock :: {w.dom} w.dom.children == old(w.dom.children) && w.dom.idom == old(w.dom.idom)
+//@   ensures  [order]    forall a *BasicBlock, b *BasicBlock :: {sub(a, b)} sub(v, a) && sub(v, b) ==> (sub(a, b) == (a.dom.pre <= b.dom.pre && b.dom.post <= a.dom.post))
+//@   loop 1   index k
+//@   loop 1   invariant [k]      0 <= k && k <= nch(v) && csum(v, k) >= 0
+//@   loop 1   invariant [count]  pre == old(pre) + 1 + csum(v, k) && post == old(post) + csum(v, k)
+//@   loop 1   invariant [shape]  forall w *BasicBlock :: {w.dom} w.dom.children == old(w.dom.children) && w.dom.idom == old(w.dom.idom)
+//@   loop 1   invariant [vpre]   v.dom.pre == old(pre) && v.dom.post == old(v.dom.post)
+//@   loop 1   invariant [range]  forall w *BasicBlock :: {sub(v, w)} sub(v, w) && w != v && cidx(v, w) < k ==> old(pre) + 1 + csum(v, cidx(v, w)) <= w.dom.pre && w.dom.pre < old(pre) + 1 + csum(v, cidx(v, w) + 1) && old(post) + csum(v, cidx(v, w)) <= w.dom.post && w.dom.post < old(post) + csum(v, cidx(v, w) + 1)
+//@   loop 1   invariant [frame]  forall w *BasicBlock :: {w.dom} (!sub(v, w) || (w != v && cidx(v, w) >= k)) ==> w.dom == old(w.dom)
+//@   loop 1   invariant [order]  forall a *BasicBlock, b *BasicBlock :: {sub(a, b)} sub(v, a) && sub(v, b) && a != v && b != v && cidx(v, a) < k && cidx(v, b) < k ==> (sub(a, b) == (a.dom.pre <= b.dom.pre && b.dom.post <= a.dom.post))
+//@   loop 1   invariant [csum]   forall i int, j int :: {csum(v, i), csum(v, j)} 0 <= i && i <= j && j <= k ==> csum(v, i) <= csum(v, j)
+
+// Dominance queries are interval containment of the numbers assigned by numberDomTree; by
+// numberDomTree#post.order this is exactly the subtree relation of the dominator tree.
+//@ func (*BasicBlock).Dominates
+//@   requires b != nil && c != nil
+//@   pure
+//@   reads    BasicBlock.dom
+//@   ensures  [interval] result == (b.dom.pre <= c.dom.pre && c.dom.post <= b.dom.post)
+//@ func (*BasicBlock).Idom
+//@   requires b != nil
+//@   pure
+//@   reads    BasicBlock.dom
+//@   ensures  result == b.dom.idom
+//@ func (*BasicBlock).Dominees
+//@   requires b != nil
+//@   pure
+//@   reads    BasicBlock.dom
+//@   ensures  result == b.dom.children
+
+//@ extern slices.Clone(s []*BasicBlock) []*BasicBlock
+//@   ensures len(result) == len(s) && (forall i int :: {result[i]} 0 <= i && i < len(s) ==> result[i] == s[i])
+// sort.Slice permutes x (only the length is used here)
+//@ extern sort.Slice(x any, less func(i int, j int) bool)
+//@   writes  x
+//@   ensures len(x) == len(old_x)
+// both listings contain every block of the function
+//@ func (*Function).DomPreorder
+//@   requires f != nil
+//@   ensures  [all] len(result) == len(f.Blocks)
+//@ func (*Function).DomPostorder
+//@   requires f != nil
+//@   ensures  [all] len(result) == len(f.Blocks)
